@@ -10,6 +10,10 @@ CHECKS = {
  "C17": (True, "exploration", "Every point of a declared lattice of data sets, models, starts, tolerances and damping schedules is fitted by the real linear_fit / curve_fit / curve_fit_jac and judged against an independent least-squares reference (SVD) under a model-call budget; all permutations of small data sets are enumerated. Bounded-exhaustive over the lattice, nothing sampled.", "nalgebra SVD as reference; accuracy constant K=20 in K*sqrt(tol)/sigma_min; values between lattice points not covered", E1, "3/C17", "E1"),
  "C19": (True, "exploration", "All coefficient vectors over a 5-digit alphabet up to degree 6 (real and complex) x points x steps: the result is compared with the exactly predicted value (derivative plus known leading error term) and, at formula level, with the stencil combination of the values the callback returned.", "harness Horner evaluation; tolerance 32 eps S/h", E1, "3/C19", "E1"),
  "C20": (True, "exploration", "Finite space enumerated completely: all 354 listing rows (parsed by an independent parser) against the generated table in both directions, all 27 named constants and the 5 derived relations.", "Rust f64::from_str as decimal conversion reference; const-name to row mapping written in the harness", "exhaustive enumeration of a finite table against an independently parsed listing", "3/C20", "E1"),
+ "C11": (True, "exploration", "Every degree pair up to 128x128 x 6 integer coefficient patterns x {real, complex} x 3 tolerance variants is multiplied by the real operators and compared with the exact product (i128 convolution); all 32 operator forms on a sub-lattice; dft/idft on every degree up to 128 and 5 transform sizes against directly computed roots of unity.", "exact integer reference; FFT rounding constant 32 log2 N; dyadic coefficient values only", E1, "3/C11", "E1"),
+ "C12": (True, "exploration", "Dividend degree 0..40 x divisor degree 0..20 x patterns x fields x 4 leading coefficients (also times i) x {generic, exact multiple}: reconstruction identity, remainder degree, constant and zero divisors, judged with the harness's own schoolbook product.", "backward error constant 32 (deg+1); schoolbook product in f64 as reference", E1, "3/C12", "E1"),
+ "C13": (True, "model_checking", "Explicit-state BFS (stateright) over real Polynomial values: the set/purge fragment to closure (3905 states) and all 61 editing/arithmetic actions depth-bounded from 5 initial polynomials (quick depth 5, thorough depth 6: 31M transitions), every transition a one-step conformance check of every observable against a coefficient-map reference; plus an exhaustive lattice for the evaluation/calculus identities.", "reference = coefficient map; stateright 0.31; boundary order<=7, |c|<=64; counts must agree between 16-thread and 1-thread runs", E3 + " + " + E1, "3/C13", "E3"),
+ "C18": (True, "exploration", "The whole stated domain is enumerated: 5 families x n=0..20 x 5 tolerances x {real, complex} = 1050 constructions, each compared coefficient by coefficient with exact rational reference coefficients (i128), plus the classical identities.", "reference coefficients from closed forms / integer recurrences in i128", "exhaustive enumeration of the finite stated domain against exact rational references", "3/C18", "E1"),
 }
 ALL = ["C%02d" % i for i in range(1, 21)]
 def main():
